@@ -538,6 +538,16 @@ func (g *G) TypedOp(kind string, s Schema, env *TEnv, joinDepth int) (Op, Schema
 		if !ok {
 			rs0 = env.Base[rt]
 		}
+		// names the right-hand side defines stay defined only if the join is kept
+		savedTables := append([]string{}, env.JoinTables...)
+		savedNamed := map[string]Schema{}
+		for k, v := range env.Named {
+			savedNamed[k] = v
+		}
+		undo := func() {
+			env.JoinTables = savedTables
+			env.Named = savedNamed
+		}
 		right, rs := g.TypedPipeline(rt, rs0, g.n("rlen", 4), env, joinDepth-1, true)
 		li, ri := s.usable(TInt), rs.usable(TInt)
 		var conds []Expr
@@ -565,6 +575,7 @@ func (g *G) TypedOp(kind string, s Schema, env *TEnv, joinDepth int) (Op, Schema
 		case len(li) > 0 && len(ri) > 0:
 			conds = append(conds, eq())
 		default:
+			undo()
 			return nil, s, false
 		}
 		if g.n("onlytrue", 14) == 0 {
@@ -575,7 +586,14 @@ func (g *G) TypedOp(kind string, s Schema, env *TEnv, joinDepth int) (Op, Schema
 			}
 		}
 		for len(conds) < 3 && g.n("extracond", 3) == 0 {
-			switch g.n("extrakind", 7) {
+			switch g.n("extrakind", 8) {
+			case 7:
+				// arithmetic across the sides, right side first: the operands
+				// of - / % do not commute
+				l, r := pickFrom(g, "lcol", li), pickFrom(g, "rcol", ri)
+				conds = append(conds, &Binary{Op: pickFrom(g, "arithcmp", []string{">", "<=", "!="}),
+					X: &Binary{Op: pickFrom(g, "aritho", []string{"-", "-", "/", "%"}), X: sideRef("$right", r.Name), Y: sideRef("$left", l.Name)},
+					Y: g.intLit()})
 			case 5:
 				// a constant as a whole condition: AND-ed like any other
 				conds = append(conds, ID(pickFrom(g, "constcond", []string{"true", "true", "false", "null"})))
@@ -644,7 +662,7 @@ func (g *G) TypedPipeline(table string, s Schema, n int, env *TEnv, joinDepth in
 	t := &Tabular{Table: ColIdent(table)}
 	for i := 0; i < n; i++ {
 		kind := pickFrom(g, "opkind", OpKinds)
-		if right && (kind == "as" || kind == "render") {
+		if right && kind == "render" {
 			continue
 		}
 		op, ns, ok := g.TypedOp(kind, s, env, joinDepth)
@@ -656,7 +674,7 @@ func (g *G) TypedPipeline(table string, s Schema, n int, env *TEnv, joinDepth in
 			// the very same operator once more (its text is identical)
 			t.Ops = append(t.Ops, op)
 		}
-		if as, isAs := op.(*As); isAs && !right {
+		if as, isAs := op.(*As); isAs {
 			if env.Named == nil {
 				env.Named = map[string]Schema{}
 			}
